@@ -43,7 +43,7 @@ def sib_export(ctx: Ctx) -> List[Ob]:
         kf = _key_func(ctx, f)
         O(f, f"{q}: key(n) = n._data_id if unique_nodes else n._node_id", kf is not None,
           "one graph node per distinct data_id, or per tree node when unique_nodes is off")
-        kname = kf.name if kf else "?"
+        kname = kf.name if kf else "_no_key_function_"
         loops = _loops_over(f, "node")
         O(f, f"{q}: node loop and edge loop both iterate `node` (same pre-order walk)", len(loops) == 2, f"{len(loops)} loops over the start node")
         if len(loops) != 2:
@@ -92,14 +92,14 @@ def sib_export(ctx: Ctx) -> List[Ob]:
             el = lps[1]
             ev = norm(el.target)
             kf = _key_func(ctx, f)
-            kn = kf.name if kf else "?"
+            kn = kf.name if kf else "_no_key_function_"
             O(f, "node_to_dot: edge statement `key(parent) -> key(child)`", any(f"{{{kn}({ev}._parent)}} -> {{{kn}({ev})}}" in norm(x) for x in ast.walk(el) if isinstance(x, ast.JoinedStr)),
               "edge direction parent -> child", el)
     # mermaid specifics
     f = m.func("_node_to_mermaid_flowchart_iter")
     lps = _loops_over(f, "node")
     kf = _key_func(ctx, f)
-    kn = kf.name if kf else "?"
+    kn = kf.name if kf else "_no_key_function_"
     if len(lps) == 2:
         nl, el = lps
         nv, ev = norm(nl.target), norm(el.target)
@@ -217,7 +217,7 @@ def render(ctx: Ctx) -> List[Ob]:
     O(f, "_get_prefix accepts 4- and 6-segment styles (4: s4=s2, s5=s3) and rejects others", ok, "custom 4- and 6-tuples must work in every style")
     il = [g for g in f.nested if len(g.positional_params()) == 1]
     ok = False
-    iln = "?"
+    iln = il[0].name if il else "_is_last"
     for g in il:
         p = g.positional_params()[0]
         r = [n for n in iter_own(g.node) if isinstance(n, ast.Return)]
